@@ -254,14 +254,15 @@ Qed.
 (* ---------- sub, neg ---------- *)
 
 (* the upper bound is itself a member (always so for results of add/sub and for user intervals built with a
-   matching stride); sub and neg are NOT sound without it: see sub_unaligned_refuted *)
+   matching stride); the bounds computation of sub (si_sub_core) is NOT sound without it: see sub_unaligned_refuted;
+   sub itself first replaces the subtrahend's upper bound by its last member (align_ub) *)
 Definition aligned (a : si) : Prop := exists m, 0 <= m /\ span a = m * stride a.
 
-Theorem sub_sound a b x y :
+Theorem sub_core_sound a b x y :
   wf a -> wf b -> bits a = bits b -> aligned b -> gamma a x -> gamma b y ->
-  exists r, si_sub a b = Ok r /\ wf r /\ bits r = bits a /\ gamma r ((x - y) mod 2 ^ bits a).
+  exists r, si_sub_core a b = Ok r /\ wf r /\ bits r = bits a /\ gamma r ((x - y) mod 2 ^ bits a).
 Proof.
-  intros Ha Hb Hab (m & Hm & Hal) Gx Gy. unfold si_sub.
+  intros Ha Hb Hab (m & Hm & Hal) Gx Gy. unfold si_sub_core.
   rewrite <- Hab. rewrite Z.eqb_refl. cbn [negb]. rewrite Z.max_id.
   destruct (overflow_ok a b Ha Hb Hab) as (o & -> & Ho). cbn [bind].
   pose proof Ha as (_ & Hw & Hsa & Hla & Hua). pose proof Hb as (_ & _ & Hsb & Hlb & Hub).
@@ -299,6 +300,109 @@ Proof.
       rewrite Zplus_mod_idemp_l. f_equal. lia.
 Qed.
 
+(* what the constructor returns for bounds that are already in range *)
+Lemma mk_cases w s l u r :
+  0 < w < SHIFT_LIMIT -> 0 <= s -> 0 <= l < 2 ^ w -> 0 <= u < 2 ^ w -> mk w s l u = Ok r ->
+  (l = u /\ r = mkSI w 0 l u false) \/
+  (l <> u /\ s = 1 /\ l = (u + 1) mod 2 ^ w /\ r = mkSI w 1 0 (2 ^ w - 1) false) \/
+  (l <> u /\ r = mkSI w s l u false).
+Proof.
+  intros Hw Hs Hl Hu. unfold mk, normalize. cbn [bot bits lb ub stride].
+  rewrite pow_ok by lia. cbn [bind]. rewrite !land_mask by lia.
+  rewrite modular_add_ok by lia. cbn [bind].
+  rewrite (Z.mod_small l), (Z.mod_small u) by lia.
+  destruct (Z.eqb_spec l u) as [Elu|Elu].
+  - replace ((l =? (u + 1) mod 2 ^ w) && (0 =? 1)) with false by (rewrite andb_false_r; reflexivity).
+    cbn [bind fst snd Z.ltb Z.compare]. intros H; inversion H. left. split; [exact Elu|reflexivity].
+  - destruct ((l =? (u + 1) mod 2 ^ w) && (s =? 1)) eqn:E.
+    + apply andb_true_iff in E. destruct E as [E1 E2]. apply Z.eqb_eq in E1. apply Z.eqb_eq in E2.
+      rewrite max_int_ok by lia. cbn [bind fst snd].
+      destruct (s <? 0) eqn:Es; [discriminate|]. intros H; inversion H. right; left. subst s. repeat split; assumption.
+    + cbn [bind fst snd]. destruct (s <? 0) eqn:Es; [discriminate|]. intros H; inversion H. right; right. split; [exact Elu|reflexivity].
+Qed.
+
+(* an interval whose stride is 0 is a single value *)
+Definition proper (b : si) : Prop := stride b = 0 -> lb b = ub b.
+
+(* the first step of sub: same members, and the upper bound is now one of them *)
+Lemma align_sound b : wf b -> proper b ->
+  exists b', align_ub b = Ok b' /\ wf b' /\ bits b' = bits b /\ aligned b' /\ (forall y, gamma b y -> gamma b' y).
+Proof.
+  intros Hwf Hp. pose proof Hwf as (Hb & Hw & Hs & Hl & Hu).
+  pose proof (pow_pos (bits b) ltac:(lia)) as Hn.
+  unfold align_ub. rewrite Hb. cbn [negb]. rewrite andb_true_r.
+  destruct (0 <? stride b) eqn:Es.
+  - apply Z.ltb_lt in Es.
+    rewrite modular_sub_ok by lia. cbn [bind]. unfold py_mod.
+    destruct (stride b =? 0) eqn:Ez; [apply Z.eqb_eq in Ez; lia|]. cbn [bind].
+    rewrite modular_add_ok by lia. cbn [bind].
+    set (n := 2 ^ bits b) in *.
+    pose proof (Z.mod_pos_bound (ub b - lb b) n Hn) as Hsp.
+    set (sp := (ub b - lb b) mod n) in *.
+    pose proof (Z.div_mod sp (stride b) ltac:(lia)) as Hdm.
+    pose proof (Z.mod_pos_bound sp (stride b) Es) as Hr.
+    assert (Hq : 0 <= sp / stride b) by (apply Z.div_pos; lia).
+    set (q := sp / stride b) in *. set (r := sp mod stride b) in *.
+    assert (Hspan : span b = sp) by reflexivity.
+    assert (Hub : ub b = (lb b + sp) mod n).
+    { unfold sp. rewrite Zplus_mod_idemp_r. replace (lb b + (ub b - lb b)) with (ub b) by lia. symmetry. apply Z.mod_small. lia. }
+    destruct (Z.eqb_spec ((lb b + (sp - r)) mod n) (ub b)) as [Elast|Elast].
+    + (* the upper bound is already the last member *)
+      exists b. split; [reflexivity|]. split; [exact Hwf|]. split; [reflexivity|]. split; [|auto].
+      exists q. split; [exact Hq|]. rewrite Hspan.
+      assert (r = 0).
+      { rewrite Hub in Elast.
+        assert (Hd : ((lb b + sp) - (lb b + (sp - r))) mod n = 0).
+        { rewrite Zminus_mod, <- Elast, Z.sub_diag. apply Z.mod_0_l. lia. }
+        replace (lb b + sp - (lb b + (sp - r))) with r in Hd by lia. rewrite Z.mod_small in Hd by lia. exact Hd. }
+      nia.
+    + set (last := (lb b + (sp - r)) mod n) in *.
+      pose proof (Z.mod_pos_bound (lb b + (sp - r)) n Hn) as Hlast. fold last in Hlast.
+      destruct (mk_sound (bits b) (stride b) (lb b) last Hw Hs) as (b' & Hb' & Hwf' & Hbits' & Hg').
+      exists b'. split; [exact Hb'|]. split; [exact Hwf'|]. split; [exact Hbits'|].
+      assert (Hspan' : (last - lb b) mod n = sp - r).
+      { unfold last. rewrite Zminus_mod_idemp_l. replace (lb b + (sp - r) - lb b) with (sp - r) by lia. apply Z.mod_small. lia. }
+      split.
+      * (* aligned *)
+        destruct (mk_cases _ _ _ _ _ Hw Hs Hl ltac:(fold n; exact Hlast) Hb') as [[E1 ->]|[(E1 & E2 & E3 & ->)|[E1 ->]]].
+        -- exists 0. unfold span; cbn [lb ub bits stride]. fold n. rewrite E1, Z.sub_diag, Z.mod_0_l by lia. lia.
+        -- (* stride 1: then r = 0 and last = ub b *) exfalso. assert (r = 0) by lia.
+           apply Elast. fold last. unfold last. rewrite Hub. f_equal. lia.
+        -- exists q. unfold span; cbn [lb ub bits stride]. fold n. rewrite Hspan'. split; [exact Hq|]. nia.
+      * intros y (_ & k & Hk & Hks & Hy). apply Hg'. split; [reflexivity|]. exists k. cbn [stride lb ub bits].
+        unfold span; cbn [lb ub bits]. fold n. rewrite Hspan'. rewrite Hspan in Hks.
+        split; [exact Hk|]. split; [|exact Hy].
+        assert (k <= q) by nia. nia.
+  - apply Z.ltb_ge in Es. assert (E0 : stride b = 0) by lia.
+    exists b. split; [reflexivity|]. split; [exact Hwf|]. split; [reflexivity|]. split; [|auto].
+    exists 0. unfold span. rewrite (Hp E0), Z.sub_diag, Z.mod_0_l by lia. lia.
+Qed.
+
+(* sub, as repaired: sound for every subtrahend *)
+Theorem sub_sound_proper a b x y :
+  wf a -> wf b -> bits a = bits b -> proper b -> gamma a x -> gamma b y ->
+  exists r, si_sub a b = Ok r /\ wf r /\ bits r = bits a /\ gamma r ((x - y) mod 2 ^ bits a).
+Proof.
+  intros Ha Hb Hab Hp Gx Gy. unfold si_sub.
+  replace (bits a =? bits b) with true by (symmetry; apply Z.eqb_eq; exact Hab). cbn [negb].
+  destruct (align_sound b Hb Hp) as (b' & -> & Hwf' & Hbits' & Hal' & Hg'). cbn [bind].
+  exact (sub_core_sound a b' x y Ha Hwf' ltac:(congruence) Hal' Gx (Hg' y Gy)).
+Qed.
+
+Lemma aligned_proper b : wf b -> aligned b -> proper b.
+Proof.
+  intros (_ & Hw & _ & Hl & Hu) (m & _ & Hm) E0. rewrite E0, Z.mul_0_r in Hm. unfold span in Hm.
+  pose proof (pow_pos (bits b) ltac:(lia)) as Hn.
+  destruct (Z.le_gt_cases (lb b) (ub b)).
+  - rewrite Z.mod_small in Hm by lia. lia.
+  - rewrite (mod_minus (2 ^ bits b)) in Hm by lia. lia.
+Qed.
+
+Theorem sub_sound a b x y :
+  wf a -> wf b -> bits a = bits b -> aligned b -> gamma a x -> gamma b y ->
+  exists r, si_sub a b = Ok r /\ wf r /\ bits r = bits a /\ gamma r ((x - y) mod 2 ^ bits a).
+Proof. intros Ha Hb Hab Hal. exact (sub_sound_proper a b x y Ha Hb Hab (aligned_proper b Hb Hal)). Qed.
+
 Theorem neg_sound a y :
   wf a -> aligned a -> gamma a y ->
   exists r, si_neg a = Ok r /\ wf r /\ bits r = bits a /\ gamma r ((- y) mod 2 ^ bits a).
@@ -315,14 +419,31 @@ Proof.
   exact Hg.
 Qed.
 
-(* sub really is unsound when the subtrahend's upper bound is not a member:
-   {0} - 2[0,1] at 2 bits is computed as 2[3,0] = {3}, but 0 - 0 = 0 *)
+Theorem neg_sound_proper a y :
+  wf a -> proper a -> gamma a y ->
+  exists r, si_neg a = Ok r /\ wf r /\ bits r = bits a /\ gamma r ((- y) mod 2 ^ bits a).
+Proof.
+  intros Ha Hp Gy. unfold si_neg.
+  pose proof Ha as (_ & Hw & _).
+  destruct (mk_sound (bits a) 0 0 0 Hw ltac:(lia)) as (z & -> & Hwfz & Hbz & Hgz). cbn [bind].
+  assert (Gz : gamma z 0).
+  { apply Hgz. split; [reflexivity|]. exists 0. cbn [stride lb ub bits]. unfold span; cbn [lb ub bits].
+    pose proof (pow_pos (bits a) ltac:(lia)). rewrite Z.mod_0_l by lia. split; [lia|]. split; [lia|].
+    rewrite Z.mod_0_l; lia. }
+  destruct (sub_sound_proper z a 0 y Hwfz Ha Hbz Hp Gz Gy) as (r & Hr & Hwf & Hbits & Hg).
+  exists r. rewrite Hbz in *. split; [exact Hr|]. split; [exact Hwf|]. split; [exact Hbits|].
+  exact Hg.
+Qed.
+
+(* without the alignment (the pinned rule) sub is unsound when the subtrahend's upper bound is not a member:
+   {0} - 2[0,1] at 2 bits is computed as 2[3,0] = {3}, but 0 - 0 = 0; the repaired sub returns {0} *)
 Definition sub_unaligned_witness : si * si := (mkSI 2 0 0 0 false, mkSI 2 2 0 1 false).
 
 Theorem sub_unaligned_refuted :
   let '(a, b) := sub_unaligned_witness in
   wf a /\ wf b /\ gamma a 0 /\ gamma b 0 /\
-  exists r, si_sub a b = Ok r /\ ~ In ((0 - 0) mod 2 ^ bits a) (members r).
+  (exists r, si_sub_core a b = Ok r /\ ~ In ((0 - 0) mod 2 ^ bits a) (members r)) /\
+  (exists r, si_sub a b = Ok r /\ In ((0 - 0) mod 2 ^ bits a) (members r)).
 Proof.
   unfold sub_unaligned_witness.
   assert (P : 2 ^ 2 = 4) by reflexivity.
@@ -330,7 +451,9 @@ Proof.
   split; [unfold wf; cbn [bot bits stride lb ub]; rewrite P; unfold SHIFT_LIMIT; lia|].
   split; [split; [reflexivity|]; exists 0; unfold span; cbn [bot bits stride lb ub]; rewrite P; vm_compute; intuition discriminate|].
   split; [split; [reflexivity|]; exists 0; unfold span; cbn [bot bits stride lb ub]; rewrite P; vm_compute; intuition discriminate|].
-  eexists. split; [vm_compute; reflexivity|]. vm_compute. intros [H|[]]; discriminate.
+  split.
+  - eexists. split; [vm_compute; reflexivity|]. vm_compute. intros [H|[]]; discriminate.
+  - eexists. split; [vm_compute; reflexivity|]. vm_compute. left; reflexivity.
 Qed.
 
 (* members is gamma, so "not in members" above is "not in gamma" *)
